@@ -29,7 +29,13 @@ def run_one(prop: str, tier: str, repo: str | None, quiet: bool = False) -> int:
         extra = {}
         if tier == "thorough":
             from . import mutate
-            extra = mutate.sweep(prop, P, ctx)
+            known = report.load_known()
+            if any((not o.ok) and report.match_known(o, known) is None for o in ctx.obs):
+                # the tree itself violates: the verdict is the violation; the self-validation sweep (whose silence variants would all
+                # "alarm" for the same reason) says nothing about such a tree and is not run
+                extra = {"variant_sweep": {"variants_analysed": 0, "skipped": ["sweep not run: the current tree violates the property (reported above)"]}}
+            else:
+                extra = mutate.sweep(prop, P, ctx)
         seed = int(os.environ.get("VERIF_SEED", "0") or 0)
         return report.finish(ctx, t0, mod.EXPLANATION, mod.ASSUMPTIONS, mod.UNDECIDED, extra, seed)
     except AnalysisError as e:
